@@ -1,9 +1,138 @@
 import Driver.Util
-open Lean
+import Driver.C07
+import NixModel.Pure.Tagging
+open Lean Nix.Dim Nix.Tagging Nix.DataView
 
+/-!
+Line protocol of the C08 model: one JSON object per line.
+
+  {"k": "tag" | "mtag", "op": "tagged" | "feature",
+   "shape": [n, …], "dims": [dim, …],          the referenced array / the feature's array
+   "pos": …, "ext": …, "units": ["ms", …],     the tag
+   "stop": "Exclusive" | "Inclusive",
+   "nrefs": n, "refidx": i                      (op = tagged)
+   "nfeats": n, "link": "tagged" | "untagged" | "indexed"   (op = feature)
+   "idx": i}                                    (k = mtag: the position index)
+
+  dim  ::= ["sampled", off|null, si, unit|null] | ["range", [tick, …], unit|null] | ["set", nlabels]
+  tag:  "pos": [x, …], "ext": [x, …] ([] = no extent stored)
+  mtag: "pos": {"r": 1, "v": [x, …]} | {"r": 2, "c": ncols, "v": [[x, …], …]}, "ext": null | the same
+
+Rationals travel as "num/den" strings.  Answer: {"ok": {"valid": b, "window": [[start, stop], …]}}
+(the stored slices; meaningful for a valid view) or {"err": "<Err>"}.
+-/
 namespace Driver.C08
+open Driver.C07
 
-/-- stub: replaced when the model of C08 is built -/
-def main : IO Unit := pureLoop fun _ => bad "C08: model driver not built yet"
+def jNat? (j : Json) : Option Nat :=
+  match jInt? j with
+  | some i => if i < 0 then none else some i.toNat
+  | none => none
+
+def jNats? (j : Json) : Option (List Nat) :=
+  match j with
+  | .arr a => a.toList.mapM jNat?
+  | _ => none
+
+def jOptStr? (j : Json) : Option (Option Nix.Units.Str) :=
+  match j with
+  | .null => some none
+  | .str s => some (some s.toList)
+  | _ => none
+
+def jStrs? (j : Json) : Option (List Nix.Units.Str) :=
+  match j with
+  | .arr a => a.toList.mapM fun x => match x with | .str s => some s.toList | _ => none
+  | _ => none
+
+def jDim? (j : Json) : Option DimDesc :=
+  match jArr j |>.toList with
+  | [Json.str "sampled", off, si, u] =>
+    match jOff? off, jRat? si, jOptStr? u with
+    | some off, some si, some u => some (.sampled off si u)
+    | _, _, _ => none
+  | [Json.str "range", ticks, u] =>
+    match jRats? ticks, jOptStr? u with
+    | some t, some u => some (.range t u)
+    | _, _ => none
+  | [Json.str "set", n] => (jNat? n).map DimDesc.set
+  | _ => none
+
+def jDims? (j : Json) : Option (List DimDesc) :=
+  match j with
+  | .arr a => a.toList.mapM jDim?
+  | _ => none
+
+def field (j : Json) (k : String) : Json :=
+  match j.getObjVal? k with
+  | .ok v => v
+  | .error _ => Json.null
+
+def jPosArr? (j : Json) : Option PosArr :=
+  match jInt? (field j "r") with
+  | some 1 => (jRats? (field j "v")).map PosArr.oneD
+  | some 2 =>
+    match jNat? (field j "c"), field j "v" with
+    | some c, .arr rows =>
+      match rows.toList.mapM jRats? with
+      | some rs => if rs.all (fun r => r.length == c) then some (.twoD c rs) else none
+      | none => none
+    | _, _ => none
+  | _ => none
+
+def jLink? (j : Json) : Option LinkType :=
+  match j with
+  | .str "tagged" => some .tagged
+  | .str "untagged" => some .untagged
+  | .str "indexed" => some .indexed
+  | _ => none
+
+def outView (r : Except Nix.Err View) : Json :=
+  match r with
+  | .error e => err e
+  | .ok v =>
+    ok (Json.mkObj [("valid", Json.bool v.valid),
+      ("window", Json.arr (v.window.map fun w =>
+        Json.arr #[Json.num (JsonNumber.fromInt w.1), Json.num (JsonNumber.fromInt w.2)]).toArray)])
+
+def handle (j : Json) : Json :=
+  match jNats? (field j "shape"), jDims? (field j "dims"), jStrs? (field j "units"), jSlice? (field j "stop") with
+  | some shape, some dims, some units, some stop =>
+    let arr : Arr := ⟨shape, dims⟩
+    match jStr (field j "k"), jStr (field j "op") with
+    | "tag", op =>
+      match jRats? (field j "pos"), jRats? (field j "ext") with
+      | some pos, some ext =>
+        let t : TagDesc := ⟨pos, ext, units⟩
+        if op == "tagged" then
+          match jNat? (field j "nrefs"), jNat? (field j "refidx") with
+          | some nrefs, some refidx => outView (Tag.taggedData t nrefs refidx arr stop)
+          | _, _ => bad "C08: nrefs / refidx"
+        else if op == "feature" then
+          match jNat? (field j "nfeats"), jLink? (field j "link") with
+          | some nfeats, some link => outView (Tag.featureData t nfeats link arr stop)
+          | _, _ => bad "C08: nfeats / link"
+        else bad "C08: unknown op"
+      | _, _ => bad "C08: tag pos / ext"
+    | "mtag", op =>
+      let extJ := field j "ext"
+      let ext? : Option (Option PosArr) := if isNull extJ then some none else (jPosArr? extJ).map some
+      match jPosArr? (field j "pos"), ext?, jNat? (field j "idx") with
+      | some pos, some ext, some idx =>
+        let t : MTagDesc := ⟨pos, ext, units⟩
+        if op == "tagged" then
+          match jNat? (field j "nrefs"), jNat? (field j "refidx") with
+          | some nrefs, some refidx => outView (MultiTag.taggedData t nrefs idx refidx arr stop)
+          | _, _ => bad "C08: nrefs / refidx"
+        else if op == "feature" then
+          match jNat? (field j "nfeats"), jLink? (field j "link") with
+          | some nfeats, some link => outView (MultiTag.featureData t nfeats idx link arr stop)
+          | _, _ => bad "C08: nfeats / link"
+        else bad "C08: unknown op"
+      | _, _, _ => bad "C08: mtag pos / ext / idx"
+    | _, _ => bad "C08: unknown kind"
+  | _, _, _, _ => bad "C08: shape / dims / units / stop"
+
+def main : IO Unit := pureLoop handle
 
 end Driver.C08
